@@ -170,13 +170,15 @@ func buildDriver(e *Env, specs []PkgSpec, race bool) (string, string, []PkgSpec,
 	for _, s := range kept {
 		fmt.Fprintf(&sb, "\t%s \"drvbin/pkgs/%s\"\n", s.Name, s.Name)
 	}
-	sb.WriteString(")\n\nfunc main() {\n\tvar names []string\n")
+	sb.WriteString(")\n\nfunc registerAll() []string {\n\tvar names []string\n")
 	for _, s := range kept {
 		fmt.Fprintf(&sb, "\tdrv.Register(&drv.PkgReg{Name: %q, Types: %s.VerifTypes, Funcs: %s.VerifFuncs, Vars: %s.VerifVars, Impls: %s.VerifImpls, Aliases: %s.VerifAliases, SpecFile: %s.VerifSpecFile})\n",
 			s.Name, s.Name, s.Name, s.Name, s.Name, s.Name, s.Name)
 		fmt.Fprintf(&sb, "\tnames = append(names, %q)\n", s.Name)
 	}
-	sb.WriteString("\tdrv.Main(names)\n}\n")
+	sb.WriteString("\treturn names\n}\n\nfunc main() { drv.Main(registerAll()) }\n")
+	fuzzTest := "package main\n\nimport (\n\t\"os\"\n\t\"testing\"\n\n\t\"verif/drv\"\n)\n\nfunc FuzzServe(f *testing.F) {\n\tif err := drv.FuzzSetup(registerAll(), os.Getenv(\"VERIF_DRV_DIR\")); err != nil {\n\t\tf.Fatal(err)\n\t}\n\tif os.Getenv(\"VERIF_FUZZ_EMPTY_CORPUS\") == \"\" {\n\t\tfor _, s := range drv.FuzzSeeds() {\n\t\t\tf.Add(s)\n\t\t}\n\t}\n\tf.Fuzz(func(t *testing.T, data []byte) {\n\t\tif msg := drv.FuzzOne(data); msg != \"\" {\n\t\t\tt.Fatal(msg)\n\t\t}\n\t})\n}\n"
+	os.WriteFile(filepath.Join(root, "fuzz_test.go"), []byte(fuzzTest), 0o644)
 	os.WriteFile(filepath.Join(root, "main.go"), []byte(sb.String()), 0o644)
 	bin := filepath.Join(root, "drvbin")
 	args := []string{"build", "-o", bin}
@@ -229,6 +231,18 @@ func runDriver(e *Env, bin, root, check string, timeout time.Duration, extraEnv 
 			mu.Lock()
 			defer mu.Unlock()
 			if err != nil {
+				if strings.Contains(stderr.String(), "WARNING: DATA RACE") {
+					rep := stderr.String()
+					if j := strings.Index(rep, "WARNING: DATA RACE"); j >= 0 {
+						rep = rep[j:]
+					}
+					merged.Fail(res.Failure{Property: e.ID, Kind: "data-race", Clause: "race-detector", Detail: "the race detector reported: " + clipStr(rep, 3000),
+						Replay: map[string]any{"race-report.txt": rep}})
+					if r, rerr := res.ReadFile(out); rerr == nil {
+						merged.Merge(r, 10)
+					}
+					return
+				}
 				incon = append(incon, fmt.Sprintf("driver shard %d: %v: %s", i, err, tail(stderr.String(), 3000)))
 				return
 			}
@@ -358,4 +372,11 @@ func cmdPrep(root, inFile, outFile string) int {
 	}
 	flush()
 	return 0
+}
+
+func clipStr(s string, n int) string {
+	if len(s) > n {
+		return s[:n] + "…"
+	}
+	return s
 }
